@@ -455,7 +455,113 @@ static void print_ops (const char *tag, uint64_t idx, const mvector<Op>& ops)
                 static_cast<unsigned long long> (idx), enc.c_str (), json_escape (desc).c_str ());
 }
 
+#ifdef SVMON_FUZZ
+// ---------------------------------------------------------------------------------------------
+// Coverage-guided driver (libFuzzer).  The input bytes feed the same generator the random mode uses
+// (two bytes per draw), so every input is a state-directed call history; libFuzzer keeps the inputs
+// that reach new edges of the header or of the monitors.  A violation prints the usual record and
+// aborts, which makes libFuzzer store the input as an artifact (the replay).  Configuration comes
+// from the environment because libFuzzer owns the command line:
+//   SVMON_FUZZ_MONITORS (default all), SVMON_FUZZ_ALSO / SVMON_FUZZ_ALSO_PREFIX (retagging),
+//   SVMON_FUZZ_FAULT 0 = plain histories, 1 = fault enumeration on the last op of each history,
+//   2 = first input byte decides; SVMON_FUZZ_FMASK all|c05; SVMON_FUZZ_FOCUS; SVMON_FUZZ_TRACE.
+namespace
+{
+  struct FuzzState
+  {
+    Engine *e; int fault; unsigned fmask; bool strong; long inputs, plain, faulted, ops;
+  };
+  FuzzState FZ;
+
+  void fuzz_finish ()
+  {
+    Internal in;
+    COV ().count ("fuzz-inputs", FZ.inputs);
+    COV ().count ("fuzz-plain-histories", FZ.plain);
+    COV ().count ("fuzz-fault-histories", FZ.faulted);
+    emit_coverage ();
+    std::fprintf (stdout, "{\"type\":\"done\",\"chunks\":1,\"deaths\":0,\"inputs\":%ld}\n", FZ.inputs);
+    std::fflush (stdout);
+  }
+
+  const char *env_or (const char *name, const char *dflt) { const char *v = std::getenv (name); return v && *v ? v : dflt; }
+}
+
+extern "C" int LLVMFuzzerTestOneInput (const uint8_t *data, size_t size)
+{
+  Globals& g = G ();
+  if (! FZ.e)
+  {
+    setvbuf (stdout, 0, _IOLBF, 0);
+    g.engine = "hist";
+    g.config = "T=" STR (SV_T) ",A=" STR (SV_ALLOC) ",NA=" STR (SV_NA) ",NB=" STR (SV_NB);
+    g.monitors = parse_monitors (env_or ("SVMON_FUZZ_MONITORS", "all"));
+    g.also_prop = std::getenv ("SVMON_FUZZ_ALSO");
+    g.also_prefix = env_or ("SVMON_FUZZ_ALSO_PREFIX", "");
+    g.verbose_trace = std::getenv ("SVMON_FUZZ_TRACE") != 0;
+    FZ.e = new (std::malloc (sizeof (Engine))) Engine ();
+    const char *focus = env_or ("SVMON_FUZZ_FOCUS", "general");
+    if (! std::strcmp (focus, "alloc")) FZ.e->mode = MODE_ALLOC;
+    else if (! std::strcmp (focus, "alias")) FZ.e->mode = MODE_ALIAS;
+    else if (! std::strcmp (focus, "range")) FZ.e->mode = MODE_RANGE;
+    else if (! std::strcmp (focus, "small")) FZ.e->mode = MODE_SMALL;
+    else if (! std::strcmp (focus, "grow")) FZ.e->mode = MODE_GROW;
+    FZ.fault = std::atoi (env_or ("SVMON_FUZZ_FAULT", "0"));
+    FZ.fmask = TK_ALL; FZ.strong = false;
+    if (! std::strcmp (env_or ("SVMON_FUZZ_FMASK", "all"), "c05"))
+    {
+      FZ.fmask = TK_ALLOC | TK_ELEM_CTOR;
+      if (! std::is_copy_constructible<ElemT>::value) FZ.fmask &= ~static_cast<unsigned> (TK_MOVE_CTOR);
+      FZ.strong = true;
+    }
+    std::fprintf (stdout, "{\"type\":\"config\",\"engine\":\"hist\",\"config\":\"%s\",\"T\":\"%s\",\"mode\":\"fuzz\",\"focus\":\"%s\",\"fault\":%d}\n",
+                  g.config, FZ.e->feat.tname, focus, FZ.fault);
+    std::atexit (fuzz_finish);
+  }
+  if (size < 4) return 0;
+  Engine& e = *FZ.e;
+  ++FZ.inputs;
+  e.case_index = static_cast<uint64_t> (FZ.inputs);
+  { Internal in; g.caseid = format ("fuzz:%ld", FZ.inputs); }
+  bool fault = FZ.fault == 1 || (FZ.fault == 2 && (data[0] & 1));
+  Rng rng (data + 1, size - 1);
+  if (! fault)
+  {
+    ++FZ.plain;
+    e.run_history (rng, 60);
+  }
+  else
+  {
+    ++FZ.faulted;
+    mvector<Op> ops;
+    int next_val = 1;
+    e.reset_pool (); e.op_index = 0;
+    Snap cur[HistBase::NSLOT];
+    uint64_t saved = g.monitors; g.monitors = 0;
+    for (int k = 0; k < 10 && (k < 1 || ! rng.exhausted ()); ++k)
+    {
+      e.snap_all (cur);
+      Op op = e.gen_op (rng, cur, next_val);
+      ops.push_back (op);
+      e.exec (op);
+    }
+    e.finish_history ();
+    g.monitors = saved;
+    if (g.verbose_trace) print_ops ("case", static_cast<uint64_t> (FZ.inputs), ops);
+    e.run_fault_case (ops, FZ.fmask, FZ.strong, false);
+  }
+  if (g.violations_total)
+  {
+    std::fflush (stdout);
+    std::abort ();          // libFuzzer stores the input; bin/check.py turns the printed record into the verdict
+  }
+  return 0;
+}
+
+int hist_main (int argc, char **argv)
+#else
 int main (int argc, char **argv)
+#endif
 {
   setvbuf (stdout, 0, _IOLBF, 0);
   Globals& g = G ();
